@@ -244,10 +244,35 @@ func runZooCase(c zooCase) *core.Failure {
 		leaf := qframe.Filter{Column: col, Comparator: cmp.v, Arg: arg.v, Inverse: c.Inverse}
 		must := filterMustErr(col, cmp, arg)
 		what := fmt.Sprintf("Filter{%s %s %s inverse=%v} on %s frame", col, cmp.name, arg.name, c.Inverse, c10VariantNames[c.Variant])
-		wrappers := []qframe.FilterClause{leaf, qframe.Not(leaf), qframe.And(leaf), qframe.Or(leaf, qframe.Filter{Column: "i", Comparator: ">", Arg: 0}), qframe.And(qframe.Filter{Column: "i", Comparator: ">", Arg: 0}, qframe.Or(leaf))}
+		allRows := qframe.Filter{Column: "i", Comparator: ">", Arg: 0}   // matches every row of every variant
+		noRows := qframe.Filter{Column: "i", Comparator: "<", Arg: -100} // matches none
+		wrappers := []qframe.FilterClause{leaf, qframe.Not(leaf), qframe.And(leaf), qframe.Or(leaf, allRows), qframe.And(allRows, qframe.Or(leaf)),
+			// the invalid leaf after sub-clauses that already decide the result
+			qframe.Or(qframe.And(allRows), leaf), qframe.Or(qframe.Not(noRows), leaf), qframe.Or(allRows, qframe.And(allRows), leaf),
+			qframe.And(noRows, leaf), qframe.And(qframe.Or(noRows), leaf), qframe.Or(qframe.And(noRows), qframe.Not(qframe.And(allRows, leaf)))}
 		for wi, w := range wrappers {
 			if f := expectErrFrame(fmt.Sprintf("%s (wrapper %d)", what, wi), qf.Filter(w), must); f != nil {
 				return f
+			}
+		}
+		if must {
+			// And is a chain of filters: once a sub-clause has failed no later sub-clause may run a user
+			// callback, and the error reported is the first one
+			calls := 0
+			pred := qframe.Filter{Column: "i", Comparator: func(x int) bool { calls++; return true }}
+			first := qf.Filter(qframe.And(leaf))
+			for ci, chain := range []qframe.FilterClause{qframe.And(leaf, pred), qframe.Not(qframe.And(leaf, pred)), qframe.Or(qframe.And(leaf, pred, pred), allRows), qframe.And(qframe.And(leaf), pred)} {
+				r := qf.Filter(chain)
+				if r.Err == nil {
+					return core.Failf("%s (chain %d): error lost", what, ci)
+				}
+				if calls != 0 {
+					return core.Failf("%s (chain %d): a predicate later in the And chain was called %d time(s) after an earlier sub-clause had failed", what, ci, calls)
+				}
+			}
+			other := qframe.Filter{Column: "i", Comparator: ">", Arg: "not an int"}
+			if r := qf.Filter(qframe.And(leaf, other)); r.Err == nil || first.Err == nil || r.Err.Error() != first.Err.Error() {
+				return core.Failf("%s: And(invalid, other invalid) reports %v, the first failure was %v", what, r.Err, first.Err)
 			}
 		}
 		return nil
@@ -840,7 +865,7 @@ func init() {
 		ID:    "C10",
 		Level: "model_checking",
 		Rule: "zoo suites, each the full product of its argument menus on 5 frame variants (base, empty, sorted+sliced, selected, aggregated): " +
-			"Filter{6 columns x 28 comparators (all names, unknown, int, nil, functions of every signature) x 22 argument values x Inverse} in 5 clause wrappers; " +
+			"Filter{6 columns x 28 comparators (all names, unknown, int, nil, functions of every signature) x 22 argument values x Inverse} in 11 clause wrappers (alone, negated, and after sub-clauses that already decide the result) plus And chains with counting predicates and a second invalid sub-clause; " +
 			"Apply/FilteredApply{26 Fn values x 6 destination names x 7x7 source columns}; GroupBy/Aggregate{16 Fn x 6 columns x 4 As x 4 key lists}; ~50 miscellaneous invalid requests (Sort/Select/Distinct/Copy/Slice/empty And,Or/enum type mismatch/Eval malformed/views/ToCSV). " +
 			"Oracles: no panic ever; invalid by the classification table => Err set and Len() = -1. Sticky suite: every errored frame (~100 ways of producing one, also after a valid prefix) x every continuation of length <= 2 over 31 operations with counting callbacks: Err kept, Len -1, no callback call, GroupBy/QFrames/Aggregate carry the error, ToCSV/ToJSON/ToSQL fail and write nothing. " +
 			"Non-trivial = cases classified must-err and sticky chains of length 2.",
